@@ -177,6 +177,7 @@ func (vc *VC) frameObligations(fn *ssa.Function, ct *Contract, te *TEnv, final *
 		ref  string
 	}
 	var dess []des
+	wholeHeaps := map[string]bool{}
 	reg := vc.eng.types
 	teOld := te.withState(vc.entry)
 	for _, m := range ct.Modifies {
@@ -195,6 +196,13 @@ func (vc *VC) frameObligations(fn *ssa.Function, ct *Contract, te *TEnv, final *
 				continue
 			}
 		case *ECall:
+			if x.Fn == "fieldheap" {
+				// fieldheap("pkg.Type", "field"): that field of every object of the type
+				if key := teOld.fieldHeapKey(x); key != "" {
+					wholeHeaps[key] = true
+					continue
+				}
+			}
 			if x.Fn == "all" {
 				tv := teOld.term(x.Args[0])
 				if p, ok := underNil(tv.gt).(*types.Pointer); ok && tv.gt != nil {
@@ -257,6 +265,9 @@ func (vc *VC) frameObligations(fn *ssa.Function, ct *Contract, te *TEnv, final *
 	}
 	sort.Strings(hs)
 	for _, k := range hs {
+		if wholeHeaps[k] {
+			continue
+		}
 		e0 := vc.heapGet(vc.entry, k, vc.heapSorts[k])
 		if final.heaps[k] == e0 {
 			continue
